@@ -2,7 +2,9 @@ import TypVerif.Gen.LockDiscipline
 /-
 C10, tie 4B: the lock discipline of `chans/pubsub.go` is REGENERATED from the source on every run: every access to the subscriber
 list `o.subs` through the method receiver lies in a region where `o.mutex` is held (read- or write-locked), and the helper
-`subIndex` is only called with it held.  This is the static counterpart of the model's "subs is read under the read lock and
+`subIndex` is only called with it held; and every `close(...)` of a subscriber channel lies in a WRITE-locked region
+(so a close can never overlap a publish, which sends under the read lock — the reason `C10.sync_exactly_once_in_order` may treat
+"send to every current subscriber" and "close and remove" as atomic with respect to each other).  This is the static counterpart of the model's "subs is read under the read lock and
 written under the write lock" (the transition system of `Model/PubSub.lean`).
 -/
 namespace C10
